@@ -146,6 +146,10 @@ func checkC09(c FmtCase) Outcome {
 	}
 	// a second tree for the --all form: the file under test plus properly formatted files that sort after it
 	allTree := cli.Tree{c.FileRel(): content, "regex-assembly/942100.ra": raHeader + "\nfoo\n", "regex-assembly/include/zz.ra": raHeader + "\nbar\n", "rules/": ""}
+	// files that are no assembly files and sort before assembly files in their directory
+	allTree["regex-assembly/.gitkeep"] = ""
+	allTree["regex-assembly/include/README.md"] = "# word lists\n"
+	allTree["regex-assembly/include/.x.ra.swp"] = "swap"
 	allRoot := sb.Path("crsall")
 	if err := allTree.Write(allRoot); err != nil {
 		panic(err)
